@@ -21,7 +21,7 @@ demo = demos[0]
 src = open(demo).read()
 pkg = re.search(r'^package (\w+)', src, re.M).group(1)
 dirs = {'binary': 'proto/binary', 'thrift': 'thrift', 'j2p': 'conv/j2p', 'p2j': 'conv/p2j', 'j2t': 'conv/j2t', 't2j': 'conv/t2j',
-        'protowire': 'proto/protowire', 'annotation': 'thrift/annotation', 'proto': 'proto', 'http': 'http', 'caching': 'internal/caching', 'util': 'internal/util', 'json': 'internal/json', 'native': 'internal/native', 'types': 'internal/native/types', 'rt': 'internal/rt'}
+        'protowire': 'proto/protowire', 'annotation': 'thrift/annotation', 'proto': 'proto', 'http': 'http', 'caching': 'internal/caching', 'util': 'internal/util', 'json': 'internal/json', 'native': 'internal/native', 'types': 'internal/native/types', 'rt': 'internal/rt', 'sse': 'internal/native/sse', 'avx': 'internal/native/avx', 'avx2': 'internal/native/avx2', 'conv': 'conv', 'conv_test': 'conv'}
 if pkg == 'generic':
     d = 'proto/generic' if re.search(r'"github.com/cloudwego/dynamicgo/proto(/binary|/protowire)?"', src) and not re.search(r'dynamicgo/thrift"', src) else 'thrift/generic'
     # in-package tests may import nothing: fall back on the patched file / helper names
